@@ -31,7 +31,7 @@ RULE = ("modules of pygen projects (<= 140 lines); cursor = every offset inside 
 ASSUMPTIONS = ["completeness is demanded only for names bound on earlier lines (what every reading of later_locals "
                "agrees on) and only outside lambda / comprehension / definition-header positions",
                "dotted completions are checked for clause 1 and 2 only"]
-BUDGET = {"quick": (80, 300), "thorough": (8000, 480)}
+BUDGET = {"quick": (80, 300), "thorough": (200, 900)}
 EXHAUSTIVE = {}
 CASE_TIMEOUT = 900
 REQUIRE = {"assist_calls": 20000, "completeness_checked": 500, "definitions_checked": 300, "truncated_calls": 5000}
@@ -111,13 +111,16 @@ def run_case(spec):
             src = files[path]
             resource = project.get_file(path)
             if spec.get("relayout"):
-                m = layoutfuzz.break_in_brackets(src, rnd, 6)
+                # half of the re-laid-out modules only get continuation lines deeper than any block (core),
+                # the other half arbitrary ones (a labelled class, see viol())
+                m = layoutfuzz.break_in_brackets(src, rnd, 6, **({"indents": (" " * 16, " " * 20, " " * 24)}
+                                                                 if spec["pseed"] % 4 == 1 else {}))
                 if m:
                     m = m.replace("\t", "    ")      # continuation lines only (the generator writes no tabs)
                 if m and m != src:
                     src = files[path] = m
-                    with open(os.path.join(root, path), "w", encoding="utf-8") as fh:
-                        fh.write(src)
+                    # through rope, so that no cached module of the old text survives
+                    resource.write(src)
                     res.ev("modules_relaid_out")
             try:
                 model = symref.build(src)
@@ -146,7 +149,39 @@ def run_case(spec):
                        if (o > 0 and (src[o - 1].isalnum() or src[o - 1] == "_")) or o % 3 == 0]
             seen_keys = set()
 
+            # continuation lines that are indented less than the first line of their statement, and the
+            # line ranges of the functions / classes that contain one (rope finds scopes by indentation)
+            import ast as _ast2
+            dedented_lines, dedent_hosts, continuation_lines = set(), [], set()
+            try:
+                _t2 = _ast2.parse(src)
+                for n_ in _ast2.walk(_t2):
+                    if isinstance(n_, _ast2.stmt) and getattr(n_, "end_lineno", n_.lineno) > n_.lineno:
+                        first_ind = len(lines[n_.lineno - 1]) - len(lines[n_.lineno - 1].lstrip())
+                        last = n_.end_lineno if not hasattr(n_, "body") else n_.body[0].lineno - 1
+                        for ln in range(n_.lineno + 1, last + 1):
+                            continuation_lines.add(ln)
+                            if lines[ln - 1].strip() and len(lines[ln - 1]) - len(lines[ln - 1].lstrip()) < first_ind:
+                                dedented_lines.add(ln)
+                for n_ in _ast2.walk(_t2):
+                    if isinstance(n_, (_ast2.FunctionDef, _ast2.AsyncFunctionDef, _ast2.ClassDef)):
+                        if any(n_.lineno <= ln <= n_.end_lineno for ln in dedented_lines):
+                            dedent_hosts.append((n_.lineno, n_.end_lineno))
+            except SyntaxError:
+                pass
+            cur = {"line": 0}
+
             def viol(key, what, **kw):
+                if dedented_lines:
+                    # rope finds scopes and logical lines by the indentation of physical lines: a module with such
+                    # a line fails in dozens of ways on the unchanged tree (72 symptoms in one thorough run), on
+                    # and far away from that line -- one class, one key
+                    kw["symptom_key"] = key
+                    key = "assist|hostile:module-has-a-continuation-line-indented-less-than-its-statement"
+                elif cur["line"] in continuation_lines and "visible-name-not-offered|owner=module" in key:
+                    # witness: an imported module-level name is not proposed on a continuation line inside brackets
+                    import re as _re3
+                    key = _re3.sub(r"bound-by=Import(From)?(\[as\])?", "bound-by=import-statement", key) + "|cursor-on-a-continuation-line"
                 if key in seen_keys:
                     return
                 seen_keys.add(key)
@@ -154,6 +189,7 @@ def run_case(spec):
 
             for offset in offsets:
                 lineno = src.count("\n", 0, offset) + 1
+                cur["line"] = lineno
                 line_end = src.find("\n", offset)
                 line_end = len(src) if line_end < 0 else line_end
                 for variant in ("intact", "truncated"):
@@ -284,6 +320,7 @@ def run_case(spec):
                 if o.role != "load" or not isinstance(o.binding[0], tuple):
                     continue
                 line = lines[o.line - 1]
+                cur["line"] = o.line
                 off = starts[o.line - 1] + len(line.encode("utf-8")[:o.col].decode("utf-8", "ignore"))
                 if off in quiet:
                     continue
